@@ -15,13 +15,14 @@ pub fn run_c06(args: &Args) -> i32 {
     "structure-aware hostile datagrams (well-framed RTPS with boundary-valued fields: wide HEARTBEAT/GAP ranges, fragment numbers beyond the total, huge sample sizes, inconsistent DATAFRAG parameters, lying octetsToInlineQos/flags/parameter lengths, boundary ACKNACK/NACKFRAG, lying numBits, interpreter/unknown submessages; truncated, byte-mutated, concatenated, lying-length and random datagrams) interleaved with state-building valid traffic, fed to a reliable with_key reader, a best-effort no_key reader and a reliable writer with history; distinct = (case index) for cases that fed >= 20 hostile datagrams; non-trivial = same",
   );
   rep.assume(&format!("disproportionate = more than {} s thread CPU time or more than 64*len + 1 MiB heap high-water growth for one datagram, or a single allocation request >= {} MiB (refused: the shard reports and exits); a call burning > {} s CPU is judged as not returning", hostile::CPU_DISPROPORTIONATE_S, alloc::HUGE >> 20, shard::CPU_BUDGET_S));
-  rep.assume("release profile (debug assertions and overflow checks off), default features; each datagram goes through MessageReceiver::handle_received_packet of all three endpoints, then one repair step and one take");
+  rep.assume("two builds of the same harness: release profile (debug assertions and overflow checks off) and the same with overflow checks and debug assertions on (counters prefixed overflow-checked:), default features; each datagram goes through MessageReceiver::handle_received_packet of all three endpoints, then one repair step and one take");
   rep.assume("the well-behaved peer of the aftermath check is never impersonated by the generator");
-  let ncases = args.scale(40_000, 2_000_000);
   let per_case = 50usize;
   let seed = args.seed;
   let replay_case = crate::replay_index(args);
-  let acc = shard::run_sharded(args, ncases, args.threads(), "C06", move |i, acc, br| {
+  // which build a replay file belongs to
+  let replay_leg: Option<String> = args.replay.as_ref().and_then(|p| std::fs::read_to_string(p).ok()).and_then(|s| serde_json::from_str::<serde_json::Value>(&s).ok()).map(|v| v["replay"]["case"]["leg"].as_str().unwrap_or("").to_string());
+  let body = move |i: u64, acc: &mut crate::ctx::Acc, br: &shard::Bracket| {
     if replay_case.map_or(false, |rc| rc != i) {
       return;
     }
@@ -31,18 +32,36 @@ pub fn run_c06(args: &Args) -> i32 {
       alloc::guard(true);
     });
     alloc::set_measured_thread(true);
-    let out = hostile::run_case(seed, i, per_case, acc, br);
+    let leg = std::env::var("VERIF_LEG").unwrap_or_default();
+    let out = hostile::run_case(seed, i, per_case, &leg, acc, br);
+    let pre = if leg.is_empty() { String::new() } else { format!("{leg}:") };
     acc.evaluations += 1;
-    acc.count("datagrams_fed", out.datagrams);
-    acc.count("panics_caught", out.panics);
+    acc.count(&format!("{pre}datagrams_fed"), out.datagrams);
+    acc.count(&format!("{pre}panics_caught"), out.panics);
     if out.aftermath_ok {
-      acc.count("aftermath_ok", 1);
+      acc.count(&format!("{pre}aftermath_ok"), 1);
     }
     acc.distinct.insert(i);
     if i < 2 {
-      acc.sample(json!({"case": {"seed": seed, "stream": 0x0606, "index": i}, "summary": hostile::summary_value(&out)}), 2);
+      acc.sample(json!({"case": {"seed": seed, "stream": 0x0606, "index": i, "leg": leg}, "summary": hostile::summary_value(&out)}), 2);
     }
-  });
+  };
+  let mut acc = crate::ctx::Acc::default();
+  if replay_leg.as_deref().unwrap_or("") == "" {
+    let ncases = args.scale(40_000, 2_000_000);
+    acc.merge(shard::run_sharded(args, ncases, args.threads(), "C06", body.clone()));
+  }
+  // second leg: the same harness built with arithmetic-overflow checks and debug assertions on (what a
+  // debug build of an application has); different case indices, so different inputs
+  match std::env::var("VERIF_RELCHECK_EXE").ok().map(std::path::PathBuf::from).filter(|p| p.exists()) {
+    Some(exe) if replay_leg.as_deref().map_or(true, |l| l == "overflow-checked") => {
+      let ncases = args.scale(20_000, 1_000_000);
+      acc.merge(shard::run_sharded_with(args, ncases, args.threads(), "C06", Some(("overflow-checked".to_string(), exe)), body));
+      rep.require("overflow-checked:datagrams_fed", 50_000);
+    }
+    Some(_) => {}
+    None => acc.inconclusive.push("overflow-checked build of the harness not found (VERIF_RELCHECK_EXE)".to_string()),
+  }
   rep.require("datagrams_fed", 50_000);
   rep.require("aftermath_ok", 500);
   rep.finish(acc)
